@@ -15,18 +15,6 @@ Theorem case_explained inp :
   prop_case inp (run_case inp) = 0 \/ finding_sig inp (run_case inp) <> 0.
 Proof. unfold prop_case, finding_sig, run_case. apply model_explained. Qed.
 
-(* ---------- the schemas of the five sections (apis/slo/v1alpha1/nodeslo_types.go) ---------- *)
-Definition leaves (n : nat) : list sch := repeat SLeaf n.
-Definition s_threshold : sch := SObj (leaves 19).
-Definition s_block : sch := SObj [SLeaf; SLeaf; SObj (leaves 16)].
-Definition s_class : sch :=
-  SObj [SObj (leaves 4); SObj (leaves 14); SObj [SLeaf; SArr s_block]; SObj (leaves 4); SObj (leaves 5)].
-Definition s_qos : sch := SObj [SObj (leaves 2); s_class; s_class; s_class; s_class; s_class].
-Definition s_burst : sch := SObj (leaves 5).
-Definition s_system : sch := SObj (leaves 5 ++ [SMap; SLeaf; SLeaf]).
-Definition s_hostapps : sch := SArr (SObj [SLeaf; SLeaf; SLeaf; SObj (leaves 3); SObj []]).
-Definition koord_schemas : list sch := [s_threshold; s_qos; s_burst; s_system; s_hostapps].
-
 (* the built-in defaults as the harness reads them from pkg/util/sloconfig (wire prefix of every case) *)
 Definition dflt_wire : list Z :=
   [5; 1; 3;19; 1;0; 1;65; 0; 1;-1; 1;70; 0;0;0;0;0;0;0;0;0;0;0; 1;-3; 0;0;
